@@ -650,6 +650,9 @@ func writeEvidence(cr *checkRun, nClaimed, nDischarged int, bySolver, byClass ma
 		"out_of_reach": cr.outOfReach, "samples": samples,
 		"explanation": "obligations = claimed obligations (discharged on the pinned tree, or new on a function that was fully discharged) generated from the current tree; discharged = those answered unsat now. Known findings and obligations unclaimed at baseline are listed separately and never counted.",
 	}
+	if st := os.Getenv("GOWP_SELFTEST"); strings.HasPrefix(st, "SELFTEST") {
+		cov["must_fail_selftest"] = st + "  (seeded property-breaking changes from /verif/seeded applied to a scratch copy; each must be reported as a violation)"
+	}
 	ev := map[string]interface{}{
 		"property_id": cr.prop, "tier": cr.tier, "seed": cr.seed, "level": "proof", "coverage": cov,
 		"assumptions": assumptions, "wall_s": round3(wall), "violations": len(violations),
